@@ -68,9 +68,16 @@ static size_t spec_vli(const uint8_t *p, size_t avail, uint64_t *val)
 /* number of bytes of the minimal encoding */
 static size_t spec_vli_size(uint64_t v)
 {
-	size_t n = 1;
-	while (v >= 0x80) { v >>= 7; ++n; }
-	return n;
+	/* 7 payload bits per byte (loop-free on purpose: cheap for the solver) */
+	if (v < (1ull << 7)) return 1;
+	if (v < (1ull << 14)) return 2;
+	if (v < (1ull << 21)) return 3;
+	if (v < (1ull << 28)) return 4;
+	if (v < (1ull << 35)) return 5;
+	if (v < (1ull << 42)) return 6;
+	if (v < (1ull << 49)) return 7;
+	if (v < (1ull << 56)) return 8;
+	return 9;
 }
 
 static size_t spec_check_size(unsigned id)
